@@ -78,8 +78,8 @@ FS = ['--max-field-sensitivity-array-size', '2048']
 def e2e_ob(r, name, th, plen, ct=1, ht=0, buf=1, extra=(), k=None, timeout=600, known_key=None):
     u, ureal = U_kern_e2e(buf), U_kern('kern', buf=buf)
     k = k or (140 + 30 * (plen // (16 * buf) + 1) * 2)
-    return r.add(Ob(name, 'h_e2e.c', [u], defines=['THREADS=%d' % th, 'PLEN=%d' % plen, 'CT=%d' % ct, 'HT=%d' % ht, 'K=%d' % k, 'SREF_MSGMAX=%d' % (plen + 160)] + E2E_DEFS + list(extra),
-                    unwind=max(k + 40, plen + 200), timeout=timeout, mem_gb=24, envs=PIPE_ENVS, replay_units=[ureal], replay_envs=NATIVE_FILE_ENVS, cbmc_extra=FS, known_key=known_key))
+    return r.add(Ob(name, 'h_e2e.c', [u], defines=['THREADS=%d' % th, 'PLEN=%d' % plen, 'CT=%d' % ct, 'HT=%d' % ht, 'K=%d' % k, 'SREF_MSGMAX=%d' % (plen + 160 + max([int(x.split('=')[1]) for x in extra if x.startswith('SEEDLEN=')] + [0]))] + E2E_DEFS + list(extra),
+                    unwind=max(k + 40, plen + 200, 80 + max([int(x.split('=')[1]) for x in extra if x.startswith('SEEDLEN=')] + [0])), timeout=timeout, mem_gb=24, envs=PIPE_ENVS, replay_units=[ureal], replay_envs=NATIVE_FILE_ENVS, cbmc_extra=FS, known_key=known_key))
 
 PROTO_SRCS = ['kernel/multi_aes/multi_buffergroup.cpp', 'kernel/multi_aes/multicry.cpp']
 PROTO_REPL = ['--replace', '_ZN8iobuffer11load_bufferEP8_IO_FILEb=stub_load', '--replace', '_ZN8iobuffer13export_bufferEP8_IO_FILEb=stub_export',
@@ -128,3 +128,12 @@ def refinement_obligations(r, tier, prefix='refine-'):
         for th in ((2, 3) if tier == 'quick' else (1, 2, 3, 4)):
             r.add(Ob('%sL2-%s-T%d' % (prefix, nm, th), 'h_refine.c', [U_refine('skel%d' % k, repl)], defines=['H_SKEL', 'SKEL=%d' % k, 'THREADS=%d' % th], unwind=40, timeout=T,
                      envs=REFINE_ENVS, replay='none', cbmc_extra=FS, note='arbitrary outcomes of every leaf call; arbitrary turn / over / id'))
+
+CLI_SRCS = ['valget/getopts.cpp', 'valget/information.cpp', 'valget/getval1.cpp', 'valget/base64/base64.cpp', 'kernel/cry.cpp']
+CLI_REPL = ['--replace', '_ZN8runcryptC2EP8_IO_FILES1_Ph8Settingsh=stub_rc_ctor', '--replace', '_ZN8runcrypt15execute_encryptEmPh=stub_rc_encrypt',
+            '--replace', '_ZN8runcrypt15execute_decryptEm=stub_rc_decrypt', '--replace', '_ZN8runcrypt14execute_verifyEm=stub_rc_verify',
+            '--replace', '_Z6strlogNSt7__cxx1112basic_stringIcSt11char_traitsIcESaIcEEES4_c=stub_strlog']
+CLI_ROOTS = 'vf_main,vf_get_v_opt,vf_fout,vf_fout_size,vf_pak_fp,vf_pak_out,vf_pak_key,vf_pak_mode,vf_pak_ctype,vf_pak_htype,vf_rc_resultprint_off,vf_pak_rbuf'
+def U_cli():
+    return Unit('cli', 'cli_shim.cpp', clang_extra=['-I' + os.path.join(VERIF, 'shim', 'cli')], extra_srcs=['main.cpp'] + CLI_SRCS, ir2c_args=CLI_REPL + ['--roots', CLI_ROOTS])
+CLI_ENVS = ['env_heap.c', 'env_cxx.c', 'env_file.c', 'env_io.c', 'env_ctype.c']
